@@ -12,6 +12,9 @@ Decided (AVN, exact, unless noted):
  RD         no local of ahrs/common/frames.py is used on a path on which it may be undefined;
  PURE       no memoising decorator / cached array is shared between calls (the origin array must be fresh).
 Not decided: convergence/accuracy of the latitude fixed-point iteration, behaviour exactly at the poles.
+Added after the seeding rounds (DESIGN.md 6.6-6.8):
+ GEODETIC.forward / GEODETIC.angles / FIXPOINT / ITER-TEST  geodetic2ecef is the textbook forward model; at the converged state of its iteration ecef2geodetic
+            returns that latitude, longitude and height; the loop continues while |old - new| > delta.
 """
 import ast
 import numpy as np
